@@ -375,6 +375,20 @@ def check_ref(ctx, rf):
                 ctx.holds(rule, fi, 'other value: selector(packing=True) -> Field; return field.pack(pkt, fragments, **k)', 'the selector tells how to pack a plain value', fi.node.lineno, clause='f')
             else:
                 ctx.violation(rule, fi, 'other value: %s; return %s' % ([e.text()[:60] for e in selp], canon(r)[:80] if r is not None else None), 'a non-packet value must be packed by the field the selector returns when called with packing=True', fi.node.lineno, clause='f')
+    # sibling agreement: the field the selector returns is prepared the same way on both sides
+    def prep(fn):
+        out = set()
+        for p in w.paths(fn.node, cls=rf):
+            for e in p.effects:
+                if e.kind == 'call' and isinstance(e.call.func, ast.Attribute) and e.call.func.attr == '_compile':
+                    kw = sorted('%s=%s' % (k.arg, canon(k.value)) for k in e.call.keywords) + [canon(a) for a in e.call.args]
+                    out.add(tuple(kw))
+        return out
+    pu, pp = prep(m['unpack_callable']), prep(m['pack_callable'])
+    if pu == pp and pu:
+        ctx.holds(rule, fi, 'selected field compiled with %s on both sides' % (sorted(pu)[0][:3],), 'parse and serialize use the same codec for the selected field', fi.node.lineno, clause='f')
+    else:
+        ctx.violation(rule, fi, 'selected field: unpack compiles with %s, pack with %s' % (sorted(pu), sorted(pp)), 'the field returned by the selector is configured differently when parsing and when serializing (byte order / alignment / search window differ)', fi.node.lineno, clause='f')
     if seen != {'field', 'packet'}:
         ctx.violation(rule, fi, 'Ref: pack through a selector', 'expected a Packet path and a selector path; found %s' % sorted(seen), fi.node.lineno, clause='f')
 
@@ -475,6 +489,42 @@ def check_normalisers(ctx):
         ctx.holds(rule, op, 'Optional: self.tmp = when; self.when = condition normaliser(self.tmp)', 'declared role', op.node.lineno, clause='g')
     else:
         ctx.violation(rule, op, 'Optional._compile', 'the when condition is not normalised from the value given to the constructor', op.node.lineno, clause='g')
+
+
+def check_truth_conversion(ctx):
+    """a field used as a condition becomes the deferred truth of its value: __nonzero__ when the
+    field has it (integers, optionals), else __len__ (sequences) -- never a comparison"""
+    repo = ctx.repo
+    rule = 'C08-normalisers'
+    fi = repo.module_funcs.get(('structural_fields', 'convert_a_field_raw_condition_into_a_boolean_unary_expression'))
+    if fi is None:
+        # inlined elsewhere: find the function the Field branch of the condition normaliser calls
+        fr = repo.module_funcs.get(('structural_fields', 'normalize_raw_condition_into_a_callable'))
+        name = None
+        for n in ast.walk(fr.node):
+            if isinstance(n, ast.If) and 'isinstance(raw_condition, Field)' in unparse(n.test):
+                for c in ast.walk(n):
+                    if isinstance(c, ast.Call) and isinstance(c.func, ast.Name) and c.func.id != 'isinstance':
+                        name = c.func.id
+        fi = repo.module_funcs.get(('structural_fields', name)) if name else None
+    if fi is None:
+        ctx.undecided(rule, ('bisturi/structural_fields.py', '<module>'), 'field -> truth conversion', 'helper not found')
+        return
+    P = fi.node.args.args[0].arg
+    w = repo.walker()
+    ok = False
+    order = None
+    for n in ast.walk(fi.node):
+        if isinstance(n, (ast.Tuple, ast.List)) and n.elts and all(isinstance(x, ast.Constant) and isinstance(x.value, str) and x.value.startswith('__') for x in n.elts):
+            order = [x.value for x in n.elts]
+    rets = [r for r in ast.walk(fi.node) if isinstance(r, ast.Return) and r.value is not None]
+    good_ret = all(isinstance(r.value, ast.Call) and isinstance(r.value.func, ast.Call) and call_name(r.value.func) == 'getattr'
+                   and canon(r.value.func.args[0]) == P for r in rets) and rets
+    if order == ['__nonzero__', '__len__'] and good_ret:
+        ctx.holds(rule, fi, 'field condition -> first of (__nonzero__, __len__) the field has, called', 'truth of the value (None / empty are false), integers by value', fi.node.lineno, clause='g')
+    else:
+        ctx.violation(rule, fi, 'field condition -> %s' % ('; '.join(stmt_text(r) for r in rets)[:160] or 'no return'),
+                      'a field used as a condition must become its deferred truth value (__nonzero__, else __len__): a comparison such as field != 0 is true for None, b\'\' and []', fi.node.lineno, clause='g')
 
 
 def check_modifier_plumbing(ctx):
@@ -592,6 +642,7 @@ def check(ctx):
     check_optional(ctx, op)
     check_ref(ctx, rf)
     check_normalisers(ctx)
+    check_truth_conversion(ctx)
     check_modifier_plumbing(ctx)
     check_late_binding(ctx)
     ctx.floor('obligations', len(ctx.obs), 20)
